@@ -59,7 +59,7 @@ CHECKS["C10"] = dict(
           "class (both representations), otherwise returns a canonical r with r·a = 1 in ZMod p (uses a kernel-checked proof that "
           "p is prime, Lucas test); div(a,b)·b = a; exp(b,e) = b^e for all 64-bit e; residue-class independence. Termination of "
           "inv is a proof obligation of the model's definition. Tie: correspondence of model and compiled functions incl. the "
-          "exit status of a forked child on zero operands."),
+          "exit status of a forked child on zero operands. ALSO (tighter tie): Goldilocks::inv/div/exp are translated from the current source on every run (fuel-bounded while loops, exit(-1) as none) and bridge theorems C10_generated_* prove the generated functions EQUAL to the hand model for every fuel >= 129 (exp: 64), so the statements above hold of the regenerated code."),
     technique="Lean 4 proof over a hand-written model (well-founded recursion, invariant) + correspondence with the implementation",
     design="§4 C10", note=NOTE_BASE + " Hand model tied to the code only on the executed cases (counts in the evidence).")
 
@@ -83,7 +83,7 @@ CHECKS["C09"] = dict(
           "non-zero element (any representation) an r with r·a = 1 and refuses exactly the zero class; batchInverse (prefix products, "
           "one inversion, backward sweep; hand model) returns element-wise inverses for every array length >= 1, refuses exactly when "
           "an element is zero or the array is empty, and agrees with inv. Tie of the hand-modelled parts: correspondence (inv on "
-          "non-zero elements, batchInverse lengths 1..66, every output checked against the spec)."),
+          "non-zero elements, batchInverse lengths 1..66, every output checked against the spec). ALSO: Goldilocks3::inv/div/batchInverse are translated on every run and C09_generated_* prove the property statements directly about the generated functions (batchInverse for every 1 <= size < 2^59)."),
     technique="Lean 4 proof (ZMod p, ring) over a translated model incl. aliasing variants + correspondence for the hand-modelled parts",
     design="§4 C09", note=NOTE_BASE)
 
@@ -125,7 +125,7 @@ CHECKS["C07"] = dict(
           "variant equals the sponge on each of its two interleaved inputs (C07_avx512, C07_avx512_is_sponge). Tie: correspondence "
           "of the models (instantiated with the translated permutations) with linear_hash_seq / linear_hash / linear_hash_avx512 for "
           "every length 0..40, 63..65, 127..129 (thorough: 0..300, 1000), each call in a forked child with the input ending at a "
-          "PROT_NONE guard page so that reads beyond the declared length fault."),
+          "PROT_NONE guard page so that reads beyond the declared length fault. ALSO: linear_hash_seq / linear_hash / linear_hash_avx512 are translated on every run (while loop, memcpy/memset) and C07_generated_* prove that for every size and every fuel > size the generated functions return Model.linearHash / linearHash512 of the input words and write nothing else."),
     technique="Lean 4 proof by induction over the block loop of a hand-written model, generic in the permutation + correspondence",
     design="§4 C07", note=NOTE_BASE)
 NOTE_NTT = (NOTE_BASE + " Model/Ntt.lean is a HAND model (sequential, functional, no threads, no caller scratch buffer, Nat index arithmetic exact for "
@@ -216,7 +216,7 @@ CHECKS["C08"] = dict(
           "element-count helper = 4(2·rows−1), the leaves come first, the root is the last four elements = recursive pairwise hash; "
           "backends agree when their hashes agree; the batched leaf. Tie: correspondence over rows x cols x dim x batch x backend "
           "(seq/avx/avx512/default wrapper) x threads, every buffer element compared, forked child with redzones. D5/D11 (AVX512 "
-          "builders out of bounds for one row) found with replays and fixed."),
+          "builders out of bounds for one row) found with replays and fixed. ALSO: all six builders and the two wrappers are translated on every run (OpenMP loops sequentially, floor on doubles modelled) and executed against the code; C08_generated_* prove for merkletree_seq and merkletree_avx that for rows = 2^k the generated builder returns exactly Model.merkleTree in the first 4(2·rows-1) words and writes nothing else (the other builders: translated and correspondence-checked, no bridge theorem yet)."),
     technique="Lean 4 proof by induction over levels of a hand-written model + correspondence over the shape grid",
     design="§4 C08", note=NOTE_BASE)
 
